@@ -507,7 +507,9 @@ def forward_signatures(func, calls, args, kwargs, sig):
         try:
             wrapped_sig = forged_signature(
                 wrapped_func, args=fwdargsvals, kwargs=fwdkwargsvals)
-        except (ValueError, TypeError):
+        except Exception:
+            # whatever keeps the callee from being introspected (inspect
+            # compares and probes it in many ways) is no reason to fail here
             raise UnknownForwards
         try:
             ausig = _signatures.forwards(
